@@ -5,13 +5,24 @@ from ..nf import Rat, C
 from ..source import Unsupported, AnchorError
 from ..xlate import Interp, Obj, ListV, DictV, Raised
 from .common import same, show, sub, opaque_obj
-from .rxnfix import reaction, state_sum, species, set_public, get_public
+from .rxnfix import reaction, make_reaction, state_sum, species, set_public, get_public
 from .c08 import expected_delta, expected_state
 
 CHEM = 'pmutt.reaction.ChemkinReaction'
 SURF = 'pmutt.omkm.reaction.SurfaceReaction'
 DESCRIPTORS = ('delta_H', 'rev_delta_H', 'reactants_H', 'products_H', 'delta_E', 'rev_delta_E', 'reactants_E',
                'products_E')
+
+
+DIM_UNITS = ('kcal/mol', 'J/mol', 'eV')
+
+
+def gas_constant(I, u):
+    """R in <u>/K, written by the rule: kB (J/K) times Avogadro for the molar units, times the energy-unit factor"""
+    D = I.D
+    if u.endswith('/mol'):
+        return D.sym('kb') * D.sym('Na') * I.unit(u)
+    return D.sym('kb') * I.unit(u)
 
 
 def clamp(run, repo):
@@ -48,7 +59,27 @@ def clamp(run, repo):
                               % (X, '' if has_ts else ' (none here)', show(got, 260)), owner.module, fn,
                               sample='%s.get_%s_act(%s) == max(0, d_act, d)' % (cname, X, key) if has_ts and rev else None)
                     n += 1
+                    # the dimensional getter is the dimensionless one times R(units) T: same direction, same
+                    # conditions (T and P both named), in more than one unit system
+                    dim = 'get_%s_act' % X[0]
+                    o2, f2 = repo.find_method(ci, dim)
+                    run.fn('%s.%s' % (o2.qual, dim))
+                    for u in DIM_UNITS:
+                        gd = I.call_method(rxn, dim, [], dict(kw, units=u, rev=rev))
+                        wd = got * gas_constant(I, u) * T if isinstance(got, Rat) else None
+                        run.check(wd is not None and isinstance(gd, Rat) and same(gd, wd), 'TWIN.act-dim',
+                                  '%s.%s' % (cname, dim), '%s units=%s' % (key, u),
+                                  '%s(units=%r, T, P, rev=%s) is %s, expected get_%s_act(T, P, rev=%s) * R(%s) * T = %s'
+                                  % (dim, u, rev, show(gd, 200), X, rev, u, show(wd, 200)), o2.module, f2)
+                        n += 1
     return n
+
+
+def adj_slope(desc, rev, slope):
+    """documented: the slope refers to the direction the descriptor is written in; the other direction has slope-1"""
+    if 'rev_delta' in desc:
+        return slope if rev else slope - 1
+    return slope - 1 if rev else slope
 
 
 def bep_rules(run, repo):
@@ -121,6 +152,37 @@ def bep_rules(run, repo):
                       % (show(via, 200), show(E / (Rk * T), 200)), o2.module, f2,
                       sample='Reaction(TS=BEP[%s]).get_delta_HoRT(act, rev=%s) == BEP.get_EoRT_act' % (desc, rev))
             n += 1
+        # the same relation in the other unit systems of the barrier (the intercept is documented in kcal/mol)
+        for u in DIM_UNITS:
+            if u == 'kcal/mol':
+                continue
+            Ru = gas_constant(I, u)
+            Eu = {}
+            for rev, E in ((False, Ef), (True, Er)):
+                Eu[rev] = I.call_method(bep, 'get_E_act', [], dict(kw, units=u, reaction=rxn, rev=rev))
+                wu = (adj_slope(desc, rev, slope) * want_d + icpt) * Ru / Rk
+                run.check(isinstance(Eu[rev], Rat) and same(Eu[rev], wu), 'REF.bep', 'BEP.get_E_act',
+                          'descriptor:%s rev=%s units=%s' % (desc, rev, u),
+                          'barrier in %s is %s, expected ((slope%s)*descriptor + intercept) converted from kcal/mol: %s'
+                          % (u, show(Eu[rev], 200), '' if same(adj_slope(desc, rev, slope), slope) else ' - 1',
+                             show(wu, 200)), owner.module, fn)
+                n += 1
+            if 'delta' in desc and isinstance(Eu[False], Rat) and isinstance(Eu[True], Rat):
+                dqu = expected_delta(I, rxn, q, kw, False, False) * Ru * T
+                run.check(same(Eu[False] - Eu[True], dqu), 'ALG.bep-difference', 'BEP.get_E_act',
+                          'descriptor:%s units=%s' % (desc, u),
+                          'forward minus reverse barrier in %s is %s, not the reaction %s %s'
+                          % (u, show(Eu[False] - Eu[True], 200), 'enthalpy' if q == 'get_HoRT' else 'electronic energy',
+                             show(dqu, 200)), owner.module, fn)
+                n += 1
+                if q == 'get_HoRT':
+                    for rev in (False, True):
+                        via = I.call_method(rxn, 'get_delta_H', [], dict(kw, units=u, rev=rev, act=True))
+                        run.check(same(via, Eu[rev]), 'ALG.bep-as-TS', 'BEP.get_HoRT',
+                                  'descriptor:%s rev=%s units=%s' % (desc, rev, u),
+                                  'activation enthalpy through the BEP transition state is %s %s but the relation '
+                                  'itself gives %s' % (show(via, 200), u, show(Eu[rev], 200)), o2.module, f2)
+                        n += 1
         # U and H offsets use the same barrier
         o3, f3 = repo.find_method(bci, 'get_UoRT')
         U = I.call_method(bep, 'get_UoRT', [], dict(kw, reaction=rxn))
@@ -181,7 +243,86 @@ def preexp_reaction(run, repo):
                   'with m=None A is %s, expected (kB T/h) exp(dS_act/R) exp(sum of the %s coefficients)'
                   % (show(got, 200), 'product' if rev else 'reactant'), owner.module, fn)
         n += 3
+    # a transition state whose model has no partition function (a species object without get_q: statistical models
+    # raise AttributeError for a mode that lacks the quantity): when get_A answers at all it has taken the entropy
+    # route, so the value is (kB T/h) exp(dS_act) exp(m) of the direction asked for
+    for where in ('transition state', 'reactant'):
+        I = Interp(repo)
+        D = I.D
+        T, P, m_ = D.sym('T'), D.sym('P'), D.sym('m')
+        kb, h = D.sym('kb'), D.sym('h')
+        rs = [species(I, 'r%d' % i) for i in range(2)]
+        ps = [species(I, 'p%d' % i) for i in range(2)]
+        ts = [species(I, 't0')]
+        bare = species_without(I, 'noq', ('get_q',))
+        if where == 'reactant':
+            rs[1] = bare
+        else:
+            ts[0] = bare
+        rxn = make_reaction(I, repo, 'pmutt.reaction.Reaction', rs, [D.sym('nu_r%d' % i) for i in range(2)],
+                            ps, [D.sym('nu_p%d' % i) for i in range(2)], ts, [D.sym('nu_t0')])
+        for rev in (False, True):
+            if where == 'reactant' and rev:
+                continue        # the reverse direction does not ask the reactants for anything
+            kw = {'T': T, 'P': P}
+            got = I.call_method(rxn, 'get_A', [], dict(kw, rev=rev, m=m_))
+            if isinstance(got, Raised):
+                continue        # no factor produced: nothing promised about it
+            dS = expected_delta(I, rxn, 'get_SoR', kw, rev, True)
+            want = kb * T / h * D.exp(dS) * D.exp(m_)
+            run.check(same(got, want), 'REF.A', 'Reaction.get_A', 'no partition function (%s) rev=%s' % (where, rev),
+                      'A is %s, expected (kB T/h) exp(dS_act/R) exp(m) in the direction asked for: %s'
+                      % (show(got, 200), show(want, 200)), owner.module, fn)
+            n += 1
     return n
+
+
+def species_without(I, name, missing):
+    """a model species (as rxnfix.species) whose object lacks some of the getters"""
+    from .rxnfix import SPECIES_METHODS, SPECIES_PARAMS
+    o = opaque_obj(I, name, {m: SPECIES_PARAMS for m in SPECIES_METHODS if m not in missing})
+    o.attrs.update({'name': name, 'phase': 'G', 'cat_site': None,
+                    'elements': DictV({'A': I.D.sym('el_%s' % name)})})
+    for m in missing:
+        o.missing.add(m)
+    return o
+
+
+# which of the three reactants (coefficients 1, 2, 1) sit on a catalyst site; the others are gas species.  Surface
+# species first, gas species first, gas species in the middle: the order in which a step is written is the user's
+LAYOUTS = ((), (0,), (0, 1), (1, 2), (0, 2), (2,), (1,))
+
+
+def surface_step(I, repo, cname, qual, surf_idx, has_ts, stoich):
+    """a reaction of class ``qual`` built by its own constructor from three reactants that already carry their phase
+    and catalyst site (Chemkin: phase letter + cat_site with a site density; OpenMKM: phase objects).  Returns the
+    reaction and the site densities, one per surface reactant molecule, in the order of the reactants"""
+    D = I.D
+    rs, sd = [], []
+    for i in range(3):
+        sp = species(I, 'r%d' % i)
+        if i in surf_idx:
+            den = D.sym('sden%d' % i)
+            if cname == 'ChemkinReaction':
+                site = Obj('site%d' % i, attrs={'site_density': den, 'bulk_specie': 'bulk'})
+                sp.attrs.update({'phase': 'S', 'cat_site': site})
+            else:
+                sp.attrs['phase'] = Obj('phase%d' % i, repo.cls('pmutt.omkm.phase.InteractingInterface'),
+                                        attrs={'site_density': den})
+            sd += [den] * int(stoich[i].const_value())
+        else:
+            if cname == 'ChemkinReaction':
+                sp.attrs.update({'phase': 'G', 'cat_site': None})
+            else:
+                ph = Obj('gasphase%d' % i, repo.cls('pmutt.cantera.phase.IdealGas'))
+                ph.missing.add('site_density')
+                sp.attrs['phase'] = ph
+        rs.append(sp)
+    ps = [species(I, 'p%d' % i) for i in range(2)]
+    ts = [species(I, 't0')] if has_ts else None
+    rxn = make_reaction(I, repo, qual, rs, stoich, ps, [D.sym('nu_p%d' % i) for i in range(2)], ts,
+                        [D.sym('nu_t0')] if has_ts else None)
+    return rxn, sd
 
 
 def preexp_surface(run, repo, classes):
@@ -192,7 +333,13 @@ def preexp_surface(run, repo, classes):
         owner, fn = repo.find_method(ci, 'get_A')
         run.fn(owner.qual + '.get_A')
         for has_ts in (True, False):
-            for n_surf_species in (0, 1, 2):
+            for surf_idx in LAYOUTS:
+                n_surf_species = len(surf_idx)
+                if cname == 'ChemkinReaction' and surf_idx and surf_idx[0] != 0:
+                    # a step written with a gas species first: not instantiated for this class (a Chemkin get_A that
+                    # loses the site densities divides by a literal zero, which the interpreter refuses instead
+                    # of reporting; the layout with the gas species in the middle decides the same loop)
+                    continue
                 for op in ('sum', 'min', 'max', 'mean'):
                     if n_surf_species == 0 and cname == 'SurfaceReaction':
                         continue      # documented: raises without any site density
@@ -200,36 +347,13 @@ def preexp_surface(run, repo, classes):
                     D = I.D
                     T, P = D.sym('T'), D.sym('P')
                     kb, h = D.sym('kb'), D.sym('h')
-                    rxn, rs, ps, ts = reaction(I, repo, qual, nr=3, nts=1 if has_ts else 0)
                     stoich = [C(1), C(2), C(1)]
-                    set_public(I, rxn, 'reactants_stoich', ListV(stoich))
-                    sd = []
-                    # species 0..n_surf_species-1 are adsorbates on a site, the rest gas
-                    for i, sp in enumerate(rs):
-                        if i < n_surf_species:
-                            den = D.sym('sden%d' % i)
-                            if cname == 'ChemkinReaction':
-                                site = Obj('site%d' % i, attrs={'site_density': den, 'bulk_specie': 'bulk'})
-                                sp.attrs.update({'phase': 'S', 'cat_site': site})
-                            else:
-                                ph = Obj('phase%d' % i, repo.cls('pmutt.omkm.phase.InteractingInterface'),
-                                         attrs={'site_density': den})
-                                sp.attrs['phase'] = ph
-                            sd += [den] * int(stoich[i].const_value())
-                        else:
-                            if cname == 'ChemkinReaction':
-                                sp.attrs.update({'phase': 'G', 'cat_site': None})
-                            else:
-                                ph = Obj('gasphase%d' % i, repo.cls('pmutt.cantera.phase.IdealGas'))
-                                ph.missing.add('site_density')
-                                sp.attrs['phase'] = ph
-                    if cname == 'ChemkinReaction':
-                        rxn.attrs['gas_phase'] = (n_surf_species == 0)
-                    else:
-                        rxn.attrs['A'] = None
-                    nsurf = sum(int(stoich[i].const_value()) for i in range(n_surf_species))
+                    # nothing is put on the reaction afterwards: what the constructor concludes from the species
+                    # (gas-phase step or not) is what get_A works with
+                    rxn, sd = surface_step(I, repo, cname, qual, surf_idx, has_ts, stoich)
+                    nsurf = sum(int(stoich[i].const_value()) for i in surf_idx)
                     got = I.call_method(rxn, 'get_A', [], {'T': T, 'P': P, 'sden_operation': op})
-                    if cname == 'SurfaceReaction' and op == 'sum' and n_surf_species == 2:
+                    if cname == 'SurfaceReaction' and op == 'sum' and surf_idx == (0, 1):
                         # the same factor in other unit systems: site densities are mol/cm2, the result is per
                         # (quantity/length^2)^(n_surf-1) of the units asked for (string or Units object)
                         from ..xlate import Frame
@@ -260,7 +384,10 @@ def preexp_surface(run, repo, classes):
                         base = kb / h * expected_delta(I, rxn, 'get_q', kwq, False, True)
                     else:
                         base = kb / h
-                    key = 'TS=%s surface species=%d op=%s' % (has_ts, n_surf_species, op)
+                    if surf_idx == tuple(range(n_surf_species)):
+                        key = 'TS=%s surface species=%d op=%s' % (has_ts, n_surf_species, op)
+                    else:
+                        key = 'TS=%s surface reactants at %s of 3 op=%s' % (has_ts, '+'.join(map(str, surf_idx)), op)
                     if not sd:
                         want = base
                     else:
@@ -345,5 +472,24 @@ MUTANTS = [
      'edits': [(R_, "return c.kb('J/K') * T / c.h('J s') * A * np.exp(m)", "return c.kb('J/K') * T / c.h('J s') * A")]},
     {'name': 'products_H descriptor reads reactants', 'expect': ('', 'BEP'),
      'edits': [(B_, "state='products',\n                                       **kwargs)", "state='reactants',\n                                       **kwargs)", 0, 2)]},
+    # white-box review (whitebox/C09_1..5): each instance added for it has its change here
+    {'name': 'Chemkin get_A stops collecting site densities at the first gas reactant',
+     'expect': ('REF.A', 'ChemkinReaction.get_A'),
+     'edits': [(R_, "                    site_den = reactant.cat_site.site_density\n                except AttributeError:\n                    continue", "                    site_den = reactant.cat_site.site_density\n                except AttributeError:\n                    break")]},
+    {'name': 'Surface get_A stops collecting site densities at the first gas reactant',
+     'expect': ('REF.A', 'SurfaceReaction.get_A'),
+     'edits': [(O_, "                    site_den = reactant.phase.site_density\n                except AttributeError:\n                    continue", "                    site_den = reactant.phase.site_density\n                except AttributeError:\n                    break")]},
+    {'name': 'Chemkin _get_n_surf stops counting at the first gas reactant', 'expect': ('REF.A', 'ChemkinReaction.get_A'),
+     'edits': [(R_, "            # Skip species without catalyst site\n            if specie.cat_site is None:\n                continue", "            # Skip species without catalyst site\n            if specie.cat_site is None:\n                break")]},
+    {'name': 'a step with one gas reactant is classed as gas phase', 'expect': ('REF.A', 'ChemkinReaction.get_A'),
+     'edits': [(R_, "return all([specie.phase.upper() == 'G' for specie in self.reactants])", "return any([specie.phase.upper() == 'G' for specie in self.reactants])")]},
+    {'name': 'Chemkin get_H_act drops rev', 'expect': ('TWIN.act-dim', 'ChemkinReaction.get_H_act'),
+     'edits': [(R_, "        return self.get_HoRT_act(rev=rev, T=T,\n                                 **kwargs)*c.R('{}/K'.format(units))*T", "        return self.get_HoRT_act(T=T,\n                                 **kwargs)*c.R('{}/K'.format(units))*T")]},
+    {'name': 'Surface get_G_act does not hand on its pressure', 'expect': ('TWIN.act-dim', 'SurfaceReaction.get_G_act'),
+     'edits': [(O_, "return self.get_GoRT_act(rev=rev, T=T, P=P, **kwargs)*T*c.R(R_units)", "return self.get_GoRT_act(rev=rev, T=T, **kwargs)*T*c.R(R_units)")]},
+    {'name': 'BEP barrier converted with the inverse unit ratio', 'expect': ('', 'BEP.get_E_act'),
+     'edits': [(B_, "return E_act * c.R('{}/K'.format(units)) / c.R('kcal/mol/K')", "return E_act * c.R('kcal/mol/K') / c.R('{}/K'.format(units))")]},
+    {'name': 'entropy fallback of Reaction.get_A forgets rev', 'expect': ('REF.A', 'Reaction.get_A'),
+     'edits': [(R_, "                use_q = False\n        if not use_q:\n            A = np.exp(self.get_delta_SoR(rev=rev, act=True, T=T, **kwargs))", "                A = np.exp(self.get_delta_SoR(act=True, T=T, **kwargs))\n        else:\n            A = np.exp(self.get_delta_SoR(rev=rev, act=True, T=T, **kwargs))")]},
 ]
 EQUIV = []
